@@ -27,7 +27,16 @@ func vfH_C06_Faithful() {
 			mon.get(c, 2)
 		}
 	}
-	switch vfChoice(3) {
+	switch vfChoice(4) {
+	case 3:
+		// Wait applies every earlier write in order, a deletion included: Set; Del; Wait; Get misses
+		k := uint64(pre)
+		mon.set(c, k, 0, 0) // cost 0: the Cost callback supplies it (cost 1)
+		c.Del(k)
+		c.Wait()
+		_, found := c.Get(k)
+		vfAssert(!found, "C06.wait-applies-deletion-after-set")
+		vfReach("setdel")
 	case 0:
 		// a new key, neither resident nor pending, that fits
 		k := uint64(pre)
